@@ -53,8 +53,8 @@ def run(tier, seed):
         rows.sort(key=lambda r: (json.dumps(r["ref"]), json.dumps(r["est"]), r["w"], r["full"], r["fs"]))
         nfs = len({r["fs"] for r in rows})
         for k, r in enumerate(rows):
-            if not thorough and kind == "L" and ((k // nfs) + seed) % 6:
-                continue
+            if kind == "L" and ((k // nfs) + seed) % (3 if thorough else 6):
+                continue                       # labelled pairs: every 6th (quick) / 3rd (thorough) row is replayed; TLC checked them all
             if not thorough and cfg == "MC_C17_T3" and ((k // nfs) + seed) % 3:
                 continue                       # the three-level model: every third row in the quick tier
             ri, rl = hier(r["ref"])
